@@ -14,6 +14,7 @@ type CritEnv struct {
 	Fields     []string      // candidate leaf fields
 	Hot        []string      // fields to favour (e.g. the indexed ones)
 	Values     []interface{} // values present in the collection (to hit bounds exactly)
+	ValuesOf   map[string][]interface{} // values present under each field (pairs on one field hit its own bounds)
 	NoFieldRef bool          // no Field()/"$name" operands
 	NoFunc     bool
 	NoLike     bool
@@ -62,6 +63,10 @@ func exactKinds(v interface{}) []string {
 		}
 		ks = append(ks, "float64")
 		return ks
+	case []interface{}, map[string]interface{}:
+		// "deep": the members of a container literal are supplied as int32 / uint32 / float32 where
+		// that is exact (a caller's literal is rarely built from canonical types)
+		return append(ks, "deep")
 	default:
 		return ks
 	}
@@ -177,6 +182,10 @@ func (e *CritEnv) Crit(t *rapid.T, depth int) *cs.Crit {
 func (e *CritEnv) pair(t *rapid.T) *cs.Crit {
 	f := e.field(t)
 	o := e.Operand(t)
+	if vs := e.ValuesOf[f]; len(vs) > 0 && rapid.IntRange(0, 4).Draw(t, "pair-own-value") != 0 {
+		// the shared bound is a value stored under this very field
+		o = cs.Operand{Kind: "lit", Lit: cs.V{X: cs.Clone(rapid.SampledFrom(vs).Draw(t, "pair-own"))}}
+	}
 	cmp := []string{"eq", "neq", "gt", "gte", "lt", "lte"}
 	mk := func(label string) *cs.Crit {
 		oo := o
@@ -188,6 +197,13 @@ func (e *CritEnv) pair(t *rapid.T) *cs.Crit {
 	a, b := mk("pair-a"), mk("pair-b")
 	if rapid.IntRange(0, 2).Draw(t, "pair-same-op") == 0 {
 		b.Op = a.Op
+	}
+	if rapid.IntRange(0, 3).Draw(t, "pair-nil") == 0 {
+		// a bound next to a test for nil on the same field (x < 5 and x == nil): the two ranges
+		// meet in the nil-only range
+		nilop := cs.Lit(nil)
+		b.Arg = &nilop
+		b.Op = rapid.SampledFrom([]string{"eq", "eq", "lte", "gte", "neq"}).Draw(t, "pair-nil-op")
 	}
 	if rapid.IntRange(0, 4).Draw(t, "pair-neg") == 0 {
 		a = &cs.Crit{Op: "not", Sub: []*cs.Crit{a}}
@@ -245,7 +261,7 @@ func (qc *QueryCfg) Query(t *rapid.T, coll string) *cs.Query {
 			if len(qc.Env.Hot) > 0 && rapid.IntRange(0, 1).Draw(t, "sorthot") == 0 {
 				f = rapid.SampledFrom(qc.Env.Hot).Draw(t, "sorthotf")
 			}
-			q.Sort = append(q.Sort, cs.SortOpt{Field: f, Dir: rapid.SampledFrom([]int{-7, -1, 0, 1, 5, 1, -1}).Draw(t, "dir")})
+			q.Sort = append(q.Sort, cs.SortOpt{Field: f, Dir: rapid.SampledFrom([]int{-7, -1, 0, 1, 5, 1, -1, math.MinInt64, math.MaxInt64, -(1 << 62), 1 << 61, math.MinInt32}).Draw(t, "dir")})
 		}
 	}
 	if !qc.NoWindow {
